@@ -288,8 +288,20 @@ def spelled(call, pool):
     return '%s%s(%s)' % ({'last': 'r.', 'u': 'u.'}.get(call.get('on'), ''), call['op'] if call['op'] != 'find' else 'find_' + call['col'], ','.join(a))
 
 
+def label(c):
+    """a column label is a string; whatever else a result carries as a label is shown as what it is"""
+    return c if isinstance(c, str) else '<%s %r>' % (type(c).__name__, c)
+
+
+def proj_labels(d, ids):
+    out = proj_table(d, ids)
+    if all(isinstance(c, str) for c in out['cols']):
+        return out
+    return dict(out, cols=[label(c) for c in out['cols']], rows=[{label(c): v for c, v in r.items()} for r in out['rows']])
+
+
 def enc_result(res, ids, tcols):
-    out = proj_table(res, ids)
+    out = proj_labels(res, ids)
     pos = {c: k for k, c in enumerate(tcols)}
     out['cols'] = sorted(out['cols'], key=lambda c: (pos.get(c, len(pos)), str(c)))      # the column order is not the statement's business
     out['kind'] = 'table'
@@ -301,8 +313,8 @@ def apply_edit(e, objs, reg):
     if e['what'] == 'list':
         L, new = reg.lists[e['id']], seq(e['new'])
         old = [tag(x, reg.ids) for x in L]
-        if new == old[:-1]: L.pop()
-        elif new[:-1] == old: L.append(untag(new[-1], reg.ids))
+        if old and new == old[:-1]: L.pop()
+        elif new and new[:-1] == old: L.append(untag(new[-1], reg.ids))
         elif not new: L.clear()
         else: L[:] = [untag(x, reg.ids) for x in new]
     elif e['what'] == 'set':
@@ -349,7 +361,7 @@ def run_session(t_abs, u_abs, pool_abs, entries, nm):
                 out = {'kind': 'val', 'v': tag(getattr(opd, 'find_' + names[c['col']])(*args, **kw), ids)}
             elif c['op'] == 'one':
                 row = opd.one_or_none(*args, exc=aobjs[c['x'] - 1], **kw) if c['x'] else opd.one_or_none(*args, **kw)
-                out = {'kind': 'none'} if row is None else {'kind': 'row', 'row': {k: tag(v, ids) for k, v in row.items()}}
+                out = {'kind': 'none'} if row is None else {'kind': 'row', 'row': {label(k): tag(v, ids) for k, v in row.items()}}
             else:
                 res = opd.inc(*args, **kw) if c['op'] == 'inc' else opd.exc(*args, **kw)
                 out = enc_result(res, ids, rt['cols'])
@@ -357,10 +369,70 @@ def run_session(t_abs, u_abs, pool_abs, entries, nm):
             out = {'kind': 'exc', 'cls': type(e).__name__}
         o['calls'].append({'call': c, 'out': out, 'pool_after': [reg.enc(x) for x in objs],
                            'args_after': [areg.enc(x) for x in aobjs] if c['src'] == 'old' else [],
-                           't_after': proj_table(d, ids), 'u_after': proj_table(du, ids),
+                           't_after': proj_labels(d, ids), 'u_after': proj_labels(du, ids),
                            'opd_after': enc_result(opd, ids, rt['cols']) if c['on'] == 'last' else {'kind': c['on']}})
         last = res
     return o
+
+
+# A history is a process lifetime: whatever the library remembers from one history (a memo keyed on the contents of an
+# argument, say) must neither hurt nor HELP the next one - replayed one after the other in one process, the first history that
+# shows the library a value decides what a memo holds for all the later ones.  The histories in which the caller edits his
+# objects (and the recorded random ones) are therefore replayed each in a process of its own, forked from a worker that
+# has imported pyg_base and has never called it.
+def iso_main(infile, outfile):
+    import json, os, traceback
+    import pyg_base                                   # imported, never called, in the process the histories are forked from
+    with open(infile) as f:
+        jobs = [json.loads(l) for l in f]
+    with open(outfile, 'w') as out:
+        for job in jobs:
+            r, w = os.pipe()
+            pid = os.fork()
+            if pid == 0:
+                try:
+                    os.close(r)
+                    try:
+                        data = json.dumps(run_session(*job))
+                    except BaseException:
+                        data = json.dumps({'error': traceback.format_exc()})
+                    with os.fdopen(w, 'w') as g:
+                        g.write(data)
+                finally:
+                    os._exit(0)
+            os.close(w)
+            with os.fdopen(r) as g:
+                data = g.read()
+            os.waitpid(pid, 0)
+            out.write((data or json.dumps({'error': 'the process of the history died'})) + '\n')
+
+
+def isolated_sessions(ctx, jobs, nproc=4):
+    """run_session(*job) for every job, each in its own process; the observations in the order of the jobs"""
+    import json, os, subprocess, sys
+    from harness.core import Machinery
+    nproc = max(1, min(nproc, len(jobs)))
+    procs = []
+    for k in range(nproc):
+        fin, fout = os.path.join(ctx.tmp, 'iso-%d.in' % k), os.path.join(ctx.tmp, 'iso-%d.out' % k)
+        with open(fin, 'w') as f:
+            for job in jobs[k::nproc]:
+                f.write(json.dumps(job) + '\n')
+        procs.append((subprocess.Popen([sys.executable, '-W', 'ignore', '-c', 'import sys, props.c06 as m; m.iso_main(sys.argv[1], sys.argv[2])', fin, fout],
+                                       cwd=os.path.dirname(os.path.dirname(os.path.abspath(__file__)))), fout))
+    res = [None] * len(jobs)
+    for k, (p, fout) in enumerate(procs):
+        if p.wait() != 0:
+            raise Machinery('C06 sessions: the worker that replays isolated histories ended with %d' % p.returncode)
+        with open(fout) as f:
+            lines = [json.loads(l) for l in f]
+        if len(lines) != len(jobs[k::nproc]):
+            raise Machinery('C06 sessions: the worker replayed %d of %d histories' % (len(lines), len(jobs[k::nproc])))
+        res[k::nproc] = lines
+    for o in res:
+        if 'error' in o:
+            raise RuntimeError('a history replayed in a process of its own raised:\n' + o['error'])
+    return res
 
 
 def session_case(o, k):
@@ -408,13 +480,15 @@ def interesting(entries):
     return any(c['op'] == 'edit' or len(seq(c['pos'])) + (1 if c['kw'] else 0) >= 2 for c in entries)
 
 
-def s2c_sessions(ctx, snaps, label):
+def s2c_sessions(ctx, snaps, label, isolate=False):
     """replay the histories TLC enumerated: after every call the pool and the tables must equal the state TLC printed, the
     outcome must be one of those the law allows (plain == / membership in the printed list)"""
     from harness.core import Machinery
+    jobs = [(s['t'], s['u'], seq(s['pool']), [h['call'] for h in seq(s['hist'])], s['nm']) for s in snaps]
+    obs = isolated_sessions(ctx, jobs) if isolate else None
     for k, s in enumerate(snaps):
         hist = seq(s['hist'])
-        o = run_session(s['t'], s['u'], seq(s['pool']), [h['call'] for h in hist], s['nm'])
+        o = obs[k] if isolate else run_session(*jobs[k])
         ctx.evals += len(hist)
         ctx.traces += 1
         for i, (h, e) in enumerate(zip(hist, o['calls'])):
@@ -570,8 +644,7 @@ def c2s(ctx, ntables, nsessions):
             if not any(c in ('exc', 'find') for c in t['cols']):
                 obs.append(observe_one2(t, cond, excl, ctx.rng.choice(['', ''] + t['cols']), sp))
     # recorded random histories: one line per session, judged call by call against the ORIGINAL pool
-    for i in range(nsessions):
-        obs.append(run_session(*rand_session(ctx.rng)))
+    obs += isolated_sessions(ctx, [rand_session(ctx.rng) for i in range(nsessions)])
     ctx.evals += sum(len(o['calls']) if o['op'] == 'session' else 1 for o in obs)
     if nsessions <= 500:
         bad = ctx.validate('Trace_Inc', obs)
@@ -619,7 +692,8 @@ def sessions(ctx):
         # contents, on the table / its result / a second table)
         snaps = gen_sessions(ctx, 'MC_IncSession_edit.cfg')
         need_forms(snaps, 'MC_IncSession_edit.cfg', ('edit-list', 'edit-set', 'edit-del', "inc(d')", "exc(**d')", "u.inc(d')", "u.find(d')", 'u.exc(d)', 'r.inc(d)', "one(d')", 'inc(**d)'))
-        s2c_sessions(ctx, snaps, 'edit')
+        # (each in a process of its own, see isolated_sessions; the quick tier replays a seeded sample of them, the thorough tier all)
+        s2c_sessions(ctx, ctx.rng.sample(snaps, min(len(snaps), 1500)), 'edit', isolate=True)
         # the names of the columns and the realisations of the callables as data of the case
         snaps = gen_sessions(ctx, 'MC_IncSession_names.cfg')
         got = {tuple(x['rt']['cols']) for x in snaps}
@@ -638,8 +712,8 @@ def sessions(ctx):
         ctx.mc('MC_IncSession', 'MC_IncSession_adopt.cfg', must_fail='PoolUntouched', coverage=False)
         for cfg in ('MC_IncSession_gen2t.cfg', 'MC_IncSession_gen2f.cfg', 'MC_IncSession_gen3a.cfg', 'MC_IncSession_editT.cfg', 'MC_IncSession_namesT.cfg',
                     'MC_IncSession_reals.cfg'):
-            s2c_sessions(ctx, gen_sessions(ctx, cfg), cfg[13:-4])
-        s2c_sessions(ctx, gen_sessions(ctx, 'MC_IncSession_sim.cfg', simulate=600, depth=8, seed=ctx.seed + 1, workers=1), 'sim')
+            s2c_sessions(ctx, gen_sessions(ctx, cfg), cfg[13:-4], isolate='edit' in cfg)
+        s2c_sessions(ctx, gen_sessions(ctx, 'MC_IncSession_sim.cfg', simulate=600, depth=8, seed=ctx.seed + 1, workers=1), 'sim', isolate=True)
 
 
 def run(ctx):
